@@ -14,6 +14,8 @@ R4  wake completeness: in every function, an element moved to a local wake list 
 R5  sleeper protocol: every nsync_mu_semaphore_p* call is inside a loop whose continuation condition re-reads the wake flag / ready times.
 R6  no blocking call while a spinlock bit is held.
 R8  no plain (non-RMW) store to the mutex word by a thread without exclusive ownership: it erases concurrent releases / hint changes.
+R9  the wake-up itself arrives: the semaphore post increments the count and issues FUTEX_WAKE on every path where a sleeper can be blocked, in
+    the default and in the release (-DNDEBUG) configuration (= C12.R4).
 R7  the thread that raised MU_LONG_WAIT clears it when it acquires, for every pre-state: otherwise a free mutex stays un-acquirable for threads that
     have not waited, which queue themselves with nobody left to wake them (= C14.R4)."""
 from .. import util, mumodel, ir as IR
@@ -170,6 +172,9 @@ def run(ctx, rep):
     # R7: a hint bit that makes a free mutex un-acquirable for fresh threads must not outlive the thread that raised it (shared with C14.R4)
     from .C14 import check_long_wait_owner
     check_long_wait_owner(eng, K, rep, 'C02.R7')
+    from . import C12
+    rep.rule('C02.R9', 'the semaphore post behind every wake-up increments and issues FUTEX_WAKE (default and NDEBUG configuration)')
+    C12.check_v_wakes(ctx, rep, 'C02.R9')
     rep.floor('C02.R1', 8)
     rep.floor('C02.R2', 10)
     rep.floor('C02.R3', 6)
